@@ -33,6 +33,7 @@ func runC03(c *core.Ctx) {
 	ruleSeparators(c, "C03-R7") // tokens must stay separated for an independent tokenizer too
 	rulePredictorGeometry(c, "C03-R8")
 	ruleTrailerSizeLast(c)
+	ruleObjStmSlots(c, "C03-R10")
 	rulePaeth(c, "C03-R8") // PNG-predicted stream data (xref streams, user streams) must be decodable by any reader
 }
 
@@ -1327,5 +1328,90 @@ func ruleTrailerSizeLast(c *core.Ctx) {
 				}
 			}
 		}
+	})
+}
+
+// ruleObjStmSlots (C03-R10): a type-2 cross-reference entry names an object
+// stream and the INDEX of the object inside it.  WriteCompressed registers
+// refs[i] under index i, so the i-th header pair and the i-th member must be
+// refs[i] and objects[i] as well: every access to the two parameter slices
+// is indexed by the position variable of a loop over them (or by len-1 for
+// the member written last), never by a permutation.
+func ruleObjStmSlots(c *core.Ctx, rule string) {
+	c.Check(rule, "pdf.(*Writer).WriteCompressed/slots", "slot i of the object stream holds refs[i] and objects[i] (the index stored in the cross-reference entry): both slices are indexed only by loop positions or by N-1", func(o *core.Ob) {
+		fn := c.Prog.Func("pdf", "(*Writer).WriteCompressed")
+		info := fn.Info()
+		refs := paramObj(fn, "refs")
+		objects := paramObj(fn, "objects")
+		// position variables: key of `range N`, `range refs`, `range objects`, or counters of three-clause loops from 0
+		pos := map[types.Object]bool{}
+		nVars := map[types.Object]bool{}
+		ast.Inspect(fn.Decl.Body, func(m ast.Node) bool {
+			switch x := m.(type) {
+			case *ast.AssignStmt:
+				if x.Tok == token.DEFINE && len(x.Lhs) == 1 && len(x.Rhs) == 1 {
+					if call, ok := ast.Unparen(x.Rhs[0]).(*ast.CallExpr); ok {
+						if id, ok := call.Fun.(*ast.Ident); ok && id.Name == "len" && len(call.Args) == 1 {
+							if a := core.ObjOf(info, call.Args[0]); a == refs || a == objects {
+								nVars[core.ObjOf(info, x.Lhs[0])] = true
+							}
+						}
+					}
+				}
+			case *ast.RangeStmt:
+				if x.Key == nil {
+					return true
+				}
+				over := core.ObjOf(info, x.X)
+				isLen := false
+				if call, ok := ast.Unparen(x.X).(*ast.CallExpr); ok {
+					if id, ok := call.Fun.(*ast.Ident); ok && id.Name == "len" {
+						isLen = true
+					}
+				}
+				if over == refs || over == objects || nVars[over] || isLen {
+					pos[core.ObjOf(info, x.Key)] = true
+				}
+			case *ast.ForStmt:
+				if as, ok := x.Init.(*ast.AssignStmt); ok && len(as.Lhs) == 1 && len(as.Rhs) == 1 {
+					if k, ok := core.IntConst(info, as.Rhs[0]); ok && k == 0 {
+						pos[core.ObjOf(info, as.Lhs[0])] = true
+					}
+				}
+			}
+			return true
+		})
+		n := 0
+		ast.Inspect(fn.Decl.Body, func(m ast.Node) bool {
+			ix, ok := m.(*ast.IndexExpr)
+			if !ok {
+				return true
+			}
+			base := core.ObjOf(info, ix.X)
+			if base != refs && base != objects {
+				return true
+			}
+			n++
+			o.Count(1)
+			idx := ast.Unparen(ix.Index)
+			if obj := core.ObjOf(info, idx); obj != nil && pos[obj] {
+				return true
+			}
+			if be, ok := idx.(*ast.BinaryExpr); ok && be.Op == token.SUB {
+				if k, ok := core.IntConst(info, be.Y); ok && k == 1 {
+					if nVars[core.ObjOf(info, be.X)] {
+						return true
+					}
+					if call, ok := ast.Unparen(be.X).(*ast.CallExpr); ok {
+						if id, ok := call.Fun.(*ast.Ident); ok && id.Name == "len" {
+							return true
+						}
+					}
+				}
+			}
+			o.FailAt(fn.Site(ix, ""), "%s: %s is not indexed by a slot position: the members are written in another order than the one registered in the cross-reference entries (which store the slot index)", c.Prog.Pos(ix.Pos()), c.Prog.Src(ix))
+			return true
+		})
+		o.Require(n >= 3, "accesses to refs/objects not found")
 	})
 }
